@@ -173,6 +173,30 @@ func checkIdentityWriters(r *Report, rule string) {
 			r.Pass(rule, s.in.Pos(), "registry re-assertion under the registry lock (callers checked by R-C03-4)", key...)
 			continue
 		}
+		// a completion helper (`completeAuthentication(conn, id, ...)`): every one of its call sites is a
+		// proof point
+		if top == f && top.Object() != nil && !top.Object().Exported() {
+			sites2 := staticCallSites(r.P, top)
+			all := len(sites2) > 0
+			for _, cs := range sites2 {
+				at := false
+				if _, pol, ok := CallFact(cs.Block(), "SecretKeyManager.VerifyResponse"); ok && pol {
+					at = true
+				}
+				for _, gc := range Calls(cs.Parent(), false, "GenerateAnonymousCredentials") {
+					if ErrOK(cs.Block(), gc) {
+						at = true
+					}
+				}
+				if !at {
+					all = false
+				}
+			}
+			if all {
+				r.Pass(rule, s.in.Pos(), fmt.Sprintf("proof point: every call site of %s (%d) is dominated by a successful VerifyResponse or by issuance of fresh credentials", top.Name(), len(sites2)), key...)
+				continue
+			}
+		}
 		r.Fail(rule, s.in.Pos(), "identity of a control connection is written outside a proof point: not dominated by a successful VerifyResponse nor by issuance of fresh credentials", key...)
 	}
 }
@@ -242,7 +266,7 @@ func runC03(r *Report) {
 			}
 			for _, need := range []string{"SetClientID", "SetAuthenticated"} {
 				nd := need
-				missing := ReachesWithout(ph, ret, func(in ssa.Instruction) bool {
+				grants := func(in ssa.Instruction) bool {
 					ci, ok := in.(ssa.CallInstruction)
 					if !ok || CalleeOf(ci).Name != nd || originSummary(Recv(ci)) != "param:conn" {
 						return false
@@ -252,6 +276,22 @@ func runC03(r *Report) {
 						return isC && b
 					}
 					return true
+				}
+				missing := ReachesWithout(ph, ret, func(in ssa.Instruction) bool {
+					if grants(in) {
+						return true
+					}
+					// through a completion helper that receives this connection as its `conn`
+					if c, ok := in.(*ssa.Call); ok && c.Common().StaticCallee() != nil {
+						passes := false
+						for i, a := range c.Call.Args {
+							if originSummary(a) == "param:conn" && i < len(c.Common().StaticCallee().Params) && c.Common().StaticCallee().Params[i].Name() == "conn" {
+								passes = true
+							}
+						}
+						return passes && performsVia(in, grants, nil)
+					}
+					return false
 				})
 				r.Ob("R-C03-2", ret.Pos(), !missing, "a success return of the proof handler has passed "+need+" on this connection (success is reported only for a connection that was actually granted the identity)", ph.Name(), "success-grants:"+need)
 			}
